@@ -440,6 +440,19 @@ def _load():
     reg('cuda_enabled', lambda toggle=None: dadi.cuda_enabled(toggle), group='integrate')
     reg('A.setitem', _asetitem, inplace=(0,), group='make')
     reg('from_demes', _from_demes, group='demes')
+    # ---- round 2 additions (found missing by the reach audit, selftest/reach.py)
+    reg('S.pickle_roundtrip', lambda fs: __import__('pickle').loads(__import__('pickle').dumps(fs, protocol=2)), group='spectrum')
+    reg('S.repr', lambda fs: repr(fs), group='spectrum')
+    reg('S.str', lambda fs: str(fs), group='spectrum')
+    reg('minus_ll', Inference.minus_ll, group='likelihood')
+    reg('minus_ll_multinom', Inference.minus_ll_multinom, group='likelihood')
+    reg('OPT.scipy', _scipy_opt, group='opthelp')
+    reg('vcf_data_dict', _vcf_dd, group='datadict')
+    reg('dd_keys', lambda dd: [[k, sorted(v['calls'].items()), v.get('outgroup_allele'), v.get('segregating')] for k, v in dd.items()], group='datadict')
+    reg('vcf_bootstraps', _vcf_boot, seed_rng=31, group='datadict')
+    reg('LP.simulate_calling', _lp_simulate, seed_rng=555, group='lowpass')
+    reg('LP.lowpass_sim_call', _lowpass_sim_call, seed_rng=556, group='lowpass')
+    reg('LP.subsample_genotypes_seeded', _lp_subsample, group='lowpass')
     # ---- interference (E1, E4): results never compared
     reg('E1.churn', _churn, no_compare=True, group='interference')
     reg('E4.np_seed', lambda k: np.random.seed(k), no_compare=True, group='interference')
@@ -449,6 +462,98 @@ def _load():
     reg('E4.seterr_probe', lambda: dict(np.geterr()), group='interference')
     from . import ops_c19
     ops_c19.register()
+
+
+def _scipy_opt(which, p0, data, model_fn, pts, **kw):
+    """a short run of one of the scipy-based optimiser wrappers (iteration cap); returns the point found"""
+    import dadi, io, contextlib
+    fn = getattr(dadi.Inference, which)
+    buf = io.StringIO()
+    with contextlib.redirect_stdout(buf):
+        r = fn(p0, data, model_fn, pts, **kw)
+    if kw.get('full_output'):
+        return [np.asarray(r[0], dtype=float), float(r[1])]
+    return np.asarray(r, dtype=float)
+
+
+def _vcf_small(nrec, skip=0):
+    """private scratch copy of the first records of the VCF bundled with the test-suite (the parser is line based)"""
+    import dadi, os
+    root = os.path.dirname(os.path.dirname(os.path.abspath(dadi.__file__)))
+    src = os.path.join(root, 'tests', 'test_data', 'vcf-dot-ref-update.vcf')
+    pop = os.path.join(root, 'tests', 'test_data', 'dot-update-popfile_2D.txt')
+    out = _tmp('v%d_%d.vcf' % (nrec, skip))
+    n = 0
+    with open(src) as f, open(out, 'w') as g:
+        for line in f:
+            if line.startswith('#'):
+                g.write(line)
+                continue
+            n += 1
+            if n <= skip:
+                continue
+            if n > skip + nrec:
+                break
+            g.write(line)
+    return out, pop
+
+
+def _vcf_dd(nrec, skip=0, subsample=None, seed=None, calc_coverage=False, extract_ploidy=False, want='dd'):
+    import dadi, os
+    vcf, pop = _vcf_small(nrec, skip)
+    try:
+        kw = {}
+        if subsample is not None:
+            kw['subsample'] = dict(subsample)
+            kw['seed'] = seed
+        r = dadi.Misc.make_data_dict_vcf(vcf, pop, calc_coverage=calc_coverage, extract_ploidy=extract_ploidy, **kw)
+        if extract_ploidy:
+            # (dictionary, ploidy): the ploidy rides along under a key no consumer looks at
+            dd = r[0]
+            return dd if want == 'dd' else r[1]
+        return r
+    finally:
+        if os.path.exists(vcf):
+            os.unlink(vcf)
+
+
+def _vcf_boot(nrec, subsample, nboot, chunk, pop_ids):
+    import dadi, os
+    vcf, pop = _vcf_small(nrec)
+    try:
+        return dadi.Misc.bootstraps_subsample_vcf(vcf, pop, dict(subsample), nboot, chunk, list(pop_ids))
+    finally:
+        if os.path.exists(vcf):
+            os.unlink(vcf)
+
+
+def _lp_seed(k):
+    """LowPass draws from a module-level numpy Generator and from scipy's global RNG: the simulator owns both"""
+    from dadi.LowPass import LowPass as LP
+    LP.rng = np.random.default_rng(k)
+    np.random.seed(k)
+    return LP
+
+
+def _lp_simulate(cov_rows, af, nseq, nsub, nsim, Fx, k=7):
+    LP = _lp_seed(k)
+    pop_ids = ['pop%d' % i for i in range(len(nsub))]
+    cov = {p: np.array(r, dtype=float) for p, r in zip(pop_ids, cov_rows)}
+    return LP.simulate_GATK_multisample_calling(cov, list(af), list(nseq), list(nsub), nsim, list(Fx))
+
+
+def _lowpass_sim_call(model_fn, params, nsub, pts, cov_rows, nseq, Fx=None, nsim=40, thr=1e-2, k=11):
+    """low-pass corrected model through the simulation branch (entries below sim_threshold are simulated)"""
+    LP = _lp_seed(k)
+    pop_ids = ['pop%d' % i for i in range(len(nsub))]
+    cov = {p: np.array(r, dtype=float) for p, r in zip(pop_ids, cov_rows)}
+    f = LP.make_low_pass_func_GATK_multisample(model_fn, cov, pop_ids, list(nseq), list(nsub), sim_threshold=thr, Fx=Fx, nsim=nsim)
+    return f(params, nsub, pts)
+
+
+def _lp_subsample(g, n, k=3):
+    LP = _lp_seed(k)
+    return LP.subsample_genotypes_1D(g, n)
 
 
 def _mk_data_dict(seed, nsnp, pops, nchrom, nconfig=4, chroms=('chr1', 'chr2', 'scaffold_10')):
